@@ -119,7 +119,8 @@ func runC14(t *testing.T, tp *simrt.Tape, keepTrace bool) hx.Result {
 		}
 	}
 	g := newGRepo(filepath.Join(base, "repo"))
-	branches := []string{"main", "dev", "rel"}[:tp.GenRange(1, 3)]
+	// up to five branches (names that cannot be read as abbreviated commit hashes)
+	branches := []string{"main", "dev", "rel", "next", "topic"}[:[]int{1, 2, 3, 3, 5, 5}[tp.Gen(6)]]
 	sizeMax := 300
 	paths := []string{"a.txt", "b.go", "dir/c.txt", "dir/sub/d.md", "dir/e.bin", "big.txt", "x/y/z.txt"}
 	nCommits := tp.GenRange(2, 6)
@@ -132,7 +133,17 @@ func runC14(t *testing.T, tp *simrt.Tape, keepTrace bool) hx.Result {
 		for k := 0; k < n; k++ {
 			p := paths[tp.Gen(len(paths))]
 			var c string
-			switch tp.Gen(8) {
+			switch tp.Gen(9) {
+			case 8:
+				// the same directory contents at two paths of one commit (a vendored copy):
+				// two different directories with one tree hash
+				for _, d := range []string{"lib", "third_party/lib"} {
+					ops = append(ops, gFileOp{kind: "write", path: d + "/util.txt", content: fmt.Sprintf("shared util %d\nneedle\n", counter)},
+						gFileOp{kind: "write", path: d + "/sub/more.txt", content: fmt.Sprintf("shared more %d\n", counter)})
+				}
+				counter++
+				history = append(history, b+": write identical directories lib and third_party/lib")
+				continue
 			case 0:
 				c = "binary\x00blob " + fmt.Sprint(counter)
 			case 1:
